@@ -93,6 +93,10 @@ def filterEntry : FilterCase := ([("p", "Bar")], entryS)
 /-- Java chain: `Kind` is a bare reference to the struct `Spec`; `Baz` uses `Spec` in an array -/
 def javaAlias : Schemas :=
   [sch [obj "Kind" (ref "Spec"), obj "Spec" (st [("x", str)]), obj "Baz" (st [("a", .array (ref "Spec") {})])]]
+/-- builders: `q.Bar` is a bare reference to the struct `p.Foo`, one of whose fields is a union with a mapping -/
+def builderAlias : Schemas :=
+  [sch [obj "Foo" (st [("oneOf", .disj [ref "Foo", ref "Foo"] { discriminator := "kind", mapping := [("b", "Foo")] } {})])],
+   { pkg := "q", objects := [("Bar", { name := "Bar", ty := ref "Foo", selfPkg := "q", selfName := "Bar" })] }]
 end W
 
 open W in
@@ -115,7 +119,8 @@ def witnesses : List Witness := [
   ⟨"filter-gen", .filter filterGen.1 filterGen.2⟩,
   ⟨"filter-entrypoint", .filter filterEntry.1 filterEntry.2⟩,
   ⟨"php-inline-order", .chain "php" (phpOrder true)⟩,
-  ⟨"java-alias-removed", .chain "java" javaAlias⟩
+  ⟨"java-alias-removed", .chain "java" javaAlias⟩,
+  ⟨"builders-mapping-crosspkg", .chain "typescript" builderAlias⟩
 ]
 
 def witness (n : String) : Option Witness := witnesses.find? (·.name == n)
